@@ -4,6 +4,7 @@ scratch trees, known findings, reporting, evidence.
 Nothing here imports the library under test.  Nothing here reads a clock or draws randomness
 except through `stream()`; wall-clock is read only by the coordinator for budgets and is never
 recorded in an event log."""
+import collections
 import hashlib
 import json
 import os
@@ -269,6 +270,8 @@ def corpus():
 
 # ----------------------------------------------------------------------------- evidence
 def write_evidence(prop, tier, seed, level, coverage, wall_s, violations, assumptions):
+    if os.environ.get("VERIF_NO_EVIDENCE"):      # sensitivity runs against scratch trees must not touch evidence/
+        return None
     os.makedirs(os.path.join(VERIF, "evidence"), exist_ok=True)
     doc = {"property_id": prop, "tier": tier, "seed": seed, "level": level,
            "coverage": coverage, "assumptions": assumptions, "wall_s": round(wall_s, 2),
